@@ -7,6 +7,8 @@ import (
 	"sync"
 	"time"
 
+	"github.com/quickfixgo/quickfix"
+
 	"verifharness/core"
 	"verifharness/fixwire"
 	"verifharness/lab"
@@ -64,12 +66,25 @@ func liveScenario(c *core.Ctx, r *core.Result, idx int, rng *rand.Rand) string {
 	kind := core.Pick(rng, "idle-answering", "silent")
 	const hbi = time.Second
 	const slack = 5 * time.Millisecond
+	// in half of the runs the application's ToAdmin callback is slow for periodic Heartbeats: the run loop is busy
+	// when the next timer expires, and the expiry must still be acted on once the callback returns
+	var slowHB func(m *quickfix.Message)
+	slow := rng.Intn(2) == 0
+	if slow {
+		kind += "+slow-callback"
+		d := time.Duration(350+rng.Intn(250)) * time.Millisecond
+		slowHB = func(m *quickfix.Message) {
+			if m.IsMsgTypeOf("0") && !m.Body.Has(112) {
+				time.Sleep(d)
+			}
+		}
+	}
 	var eng *live.Engine
 	var err error
 	port := 0
 	for try := 0; try < 3; try++ {
 		port = live.FreePort()
-		if eng, err = live.StartAcceptor(live.Options{Who: "engine", Begin: begin, Sender: "E" + tag, Target: "P" + tag, Port: port, R: rec}); err == nil {
+		if eng, err = live.StartAcceptor(live.Options{Who: "engine", Begin: begin, Sender: "E" + tag, Target: "P" + tag, Port: port, R: rec, ToAdmin: slowHB}); err == nil {
 			break
 		}
 	}
@@ -126,7 +141,7 @@ func liveScenario(c *core.Ctx, r *core.Result, idx int, rng *rand.Rand) string {
 			prevOut = ts
 		}
 	}
-	switch kind {
+	switch strings.TrimSuffix(kind, "+slow-callback") {
 	case "idle-answering":
 		// the peer only answers TestRequests (late); the engine must heartbeat on its own
 		ctl := control(hbi)
